@@ -497,7 +497,7 @@ func TestVerifC20Sessions(t *testing.T) {
 			},
 			"rtspRead": func(t *rapid.T) {
 				p := rapid.SampledFrom(names).Draw(t, "path")
-				depth := rapid.SampledFrom([]string{"describe", "setup", "play", "play"}).Draw(t, "depth")
+				depth := rapid.SampledFrom([]string{"describe", "setup", "play", "play", "play-pause", "play-pause-play"}).Draw(t, "depth")
 				c := newClient("rtspRead", p)
 				hist = append(hist, fmt.Sprintf("c%d=rtspRead(%s,%s)", c.id, p, depth))
 				u, _ := base.ParseURL(rtspURL(p))
@@ -517,7 +517,24 @@ func TestVerifC20Sessions(t *testing.T) {
 						fail("harness precondition: SETUP failed: %v", err)
 					}
 					c.state = "setup"
-					if depth == "play" {
+					if strings.HasPrefix(depth, "play") {
+						if _, err := c.rc.Play(nil); err != nil {
+							fail("harness precondition: PLAY failed: %v", err)
+						}
+						c.state = "play"
+						readOpens++
+					}
+					if strings.HasPrefix(depth, "play-pause") {
+						await("after rtspRead (playing)", false)
+						if _, err := c.rc.Pause(); err != nil {
+							fail("harness precondition: PAUSE failed: %v", err)
+						}
+						c.state = "paused"
+						readCloses++
+					}
+					if depth == "play-pause-play" {
+						await("after rtspRead (paused)", false)
+						pausedCycle = true
 						if _, err := c.rc.Play(nil); err != nil {
 							fail("harness precondition: PLAY failed: %v", err)
 						}
